@@ -24,6 +24,7 @@ Producer: harness/viz_common.py.
   layer v…                           property layer `v`: values, x-major (W*H ints);  layern NAME v…: layer NAME
   drawlayers SPEC…                   SPEC = NAME:MODE:ALPHA:VMIN:VMAX:CBAR, MODE ∈ color=C cmap=C none, ALPHA percent,
                                      VMIN / VMAX ints, CBAR ∈ y n; `-` for a key the portrayal leaves out
+  drawsp SPEC…                       draw_space(space, portrayal, propertylayer_portrayal={SPEC…}): agents, then layers
   drawlayer cmap|color|cmapauto|colorauto     short for  drawlayers v:cmap=viridis|color=red:-:0|-:9|-:n
 
  params scenarios
@@ -412,6 +413,16 @@ def stepLine (st : St) (ws : List String) : St × String :=
       match legacySpec mode with
       | none => (st, "bad-op")
       | some spec => (st, fmtLayers sp.w (drawLayers sp.fam st.layers [spec]))
+  | "drawsp" :: specs =>
+    withSpace st fun sp =>
+      match specs.mapM parseSpec with
+      | none => (st, "bad-op")
+      | some ps =>
+        if !(ps.map (·.1)).Nodup then (st, "bad-op") else
+        match drawSpaceFull sp st.heap st.portrayal st.layers ps with
+        | .error (.agents e) => (st, fmtErr e)
+        | .error (.layers e) => (st, fmtLayers sp.w (.error e))
+        | .ok (gs, ds) => (st, fmtDraw gs ++ " ## " ++ fmtLayers sp.w (.ok ds))
   | "drawlayers" :: specs =>
     withSpace st fun sp =>
       match specs.mapM parseSpec with
